@@ -79,8 +79,9 @@ fn float_eq(a: f64, b: f64) -> bool {
         // relative error is less meaningful here.
         diff < (f64::EPSILON * f64::MIN_POSITIVE)
     } else {
-        // use relative error.
-        diff / (abs_a + abs_b) < f64::EPSILON
+        // use relative error. The sum of two large magnitudes can exceed the
+        // range of f64; halve the operands first so it stays finite.
+        diff / 2.0 / (abs_a / 2.0 + abs_b / 2.0) < f64::EPSILON
     }
 }
 
